@@ -85,7 +85,7 @@ def run_check(prop, tier, seed, timeout, verbose):
     from .stubs import ASSUMED
 
     t0 = time.time()
-    timeout = timeout or (10 if tier == "quick" else 60)
+    timeout = timeout or (20 if tier == "quick" else 60)
     index = SourceIndex()
     mod = importlib.import_module(f"contracts.{prop}")
     contracts = C.all_contracts()
@@ -369,6 +369,8 @@ def write_evidence(prop, tier, seed, mod, index, unit_results, all_obs, extra_re
         "by_backend": by_backend,
         "solver_s": round(solver_s, 2),
         "samples": samples,
+        "slowest": [{"obligation": ob.name, "seconds": round(ob.time or 0, 2), "solver": ob.solver}
+                    for ob in sorted(all_obs, key=lambda o: -(o.time or 0))[:5]],
         "undecided": undecided,
         "checker_errors": errors,
         "known_findings_reported": sorted(set(known_lines)),
